@@ -552,15 +552,26 @@ send_step_harness!(c06_send_step_udp_65022_253, 65022, 253, 1, false);
 /// the 512-slot budget is exhausted (never an out-of-bounds index).  Bound: at most one
 /// AddressInUse answer per step (the loop body is uniform; the budget boundary is taken at
 /// k = 510, 511, 512).
-fn send_step_tcp(rs: u16, k: u16, v6: bool) {
+fn send_step_tcp(rs: u16, k: u16, v6: bool, mode: u8) {
     let mut cfg = any_strategy_config(v6);
     cfg.protocol = Protocol::Tcp;
     kani::assume(accepted(&cfg));
     let mut st = any_state_at(cfg, rs, k);
     kani::assume(inv_scalar(&st));
-    let o0 = any_send_outcome();
-    let o1 = any_send_outcome();
-    kani::assume(o1 != SendOutcome::AddressInUse);
+    // bound: at most one AddressInUse answer per step, and the re-issued probe is answered Ok or
+    // ProbeFailed (a fatal answer takes the same path as for the fresh probe): one loop iteration.
+    // mode 0: the fresh probe is answered Ok / ProbeFailed / Fatal (symbolic); mode 1: AddressInUse
+    // then Ok; mode 2: AddressInUse then ProbeFailed (split to keep each query below 16 GB).
+    let o0 = if mode == 0 {
+        match kani::any::<u8>() % 3 {
+            0 => SendOutcome::Ok,
+            1 => SendOutcome::ProbeFailed,
+            _ => SendOutcome::Fatal,
+        }
+    } else {
+        SendOutcome::AddressInUse
+    };
+    let o1 = if mode == 2 { SendOutcome::ProbeFailed } else { SendOutcome::Ok };
     let mut net = SymNet::new([o0, o1, SendOutcome::Fatal]);
     let strategy = Strategy::new(&cfg, noop_publish);
     let (seq0, rs0, ttl0, round0) = (st.sequence, st.round_sequence, st.ttl, st.round);
@@ -611,8 +622,8 @@ fn send_step_tcp(rs: u16, k: u16, v6: bool) {
         }
         assert!(inv_scalar(&st), "INV preserved by the send step");
     }
-    kani::cover!(k >= 511 || (net.calls == 2 && o1 == SendOutcome::Ok), "re-issued and sent");
-    kani::cover!(k != 511 || (net.calls == 1 && o0 == SendOutcome::AddressInUse), "capacity exhausted during re-issue");
+    kani::cover!(k >= 511 || mode == 0 || net.calls == 2, "re-issued and sent");
+    kani::cover!(k != 511 || mode == 0 || (net.calls == 1 && o0 == SendOutcome::AddressInUse), "capacity exhausted during re-issue");
     kani::cover!(k < 512 || matches!(res, Err(Error::InsufficientCapacity)), "capacity exhausted before the fresh probe");
     std::mem::forget(st);
     std::mem::forget(net);
@@ -620,20 +631,23 @@ fn send_step_tcp(rs: u16, k: u16, v6: bool) {
 }
 
 macro_rules! send_step_tcp_harness {
-    ($name:ident, $rs:expr, $k:expr, $v6:expr) => {
+    ($name:ident, $rs:expr, $k:expr, $v6:expr, $mode:expr) => {
         #[kani::proof]
-        #[kani::unwind(3)]
+        #[kani::unwind(2)]
         #[kani::stub(std::time::SystemTime::now, clock::now_stub)]
         fn $name() {
-            send_step_tcp($rs, $k, $v6);
+            send_step_tcp($rs, $k, $v6, $mode);
         }
     };
 }
-send_step_tcp_harness!(c06_send_step_tcp_0_0, 0, 0, false);
-send_step_tcp_harness!(c06_send_step_tcp_33434_17, 33434, 17, true);
-send_step_tcp_harness!(c06_send_step_tcp_65022_510, 65022, 510, false);
-send_step_tcp_harness!(c06_send_step_tcp_65022_511, 65022, 511, false);
-send_step_tcp_harness!(c06_send_step_tcp_33434_512, 33434, 512, false);
+send_step_tcp_harness!(c06_send_step_tcp_0_0_fresh, 0, 0, false, 0);
+send_step_tcp_harness!(c06_send_step_tcp_0_0_reissue_ok, 0, 0, false, 1);
+send_step_tcp_harness!(c06_send_step_tcp_33434_17_fresh, 33434, 17, true, 0);
+send_step_tcp_harness!(c06_send_step_tcp_33434_17_reissue_failed, 33434, 17, true, 2);
+send_step_tcp_harness!(c06_send_step_tcp_65022_510_reissue_ok, 65022, 510, false, 1);
+send_step_tcp_harness!(c06_send_step_tcp_65022_511_fresh, 65022, 511, false, 0);
+send_step_tcp_harness!(c06_send_step_tcp_65022_511_reissue, 65022, 511, false, 1);
+send_step_tcp_harness!(c06_send_step_tcp_33434_512, 33434, 512, false, 0);
 
 // =========================================================================== C08: round completion timing
 
@@ -741,6 +755,62 @@ fn c08_update_round_step() {
     std::mem::forget(st);
 }
 
+/// Two consecutive loop iterations (clock readings t1 <= t2, at most one read timeout apart): a
+/// round is never held open beyond max-round-duration plus one read timeout — if the first call did
+/// not publish and the round is older than max at the second, the second publishes; and a round is
+/// published at most once per call.  All durations zero included.
+#[kani::proof]
+#[kani::unwind(4)]
+#[kani::stub(std::time::SystemTime::now, clock::now_stub)]
+fn c08_round_not_held_open() {
+    let mut cfg = any_strategy_config(kani::any());
+    kani::assume(accepted(&cfg));
+    let (max_s, max_n, to_s): (u32, u32, u32) = kani::any();
+    kani::assume(max_n < 1_000_000_000 && max_s < 1_000_000 && to_s < 1_000_000);
+    let dmax = (u64::from(max_s), max_n);
+    cfg.min_round_duration = Duration::ZERO;
+    cfg.max_round_duration = Duration::new(dmax.0, dmax.1);
+    cfg.grace_duration = any_duration();
+    let mut st = any_state(cfg);
+    kani::assume(inv_scalar(&st));
+    let (start, start_s, start_n) = any_time();
+    st.round_start = start;
+    st.received_time = None;
+    st.target_found = false;
+    let (t1_s, t1_n, t2_s, t2_n): (u32, u32, u32, u32) = kani::any();
+    kani::assume(t1_n < 1_000_000_000 && t2_n < 1_000_000_000);
+    let (t1, t2) = ((u64::from(t1_s), t1_n), (u64::from(t2_s), t2_n));
+    kani::assume(!gt((start_s, start_n), t1) && !gt(t1, t2)); // start <= t1 <= t2
+    // one loop iteration costs at most one read timeout
+    kani::assume(!gt(dur_since(t2, t1).unwrap(), (u64::from(to_s), 0)));
+    clock::set(0, t1.0, t1.1);
+    clock::set(1, t2.0, t2.1);
+    clock::set(2, t2.0, t2.1);
+    let count = std::cell::Cell::new(0u32);
+    let strategy = Strategy::new(&cfg, |_r: &Round<'_>| count.set(count.get() + 1));
+    let round0 = st.round;
+    strategy.update_round(&mut st);
+    let first = count.get();
+    if first == 0 {
+        // the clock's second reading is consumed by this call
+        strategy.update_round(&mut st);
+        let age = dur_since(t2, (start_s, start_n)).unwrap();
+        if gt(age, dmax) {
+            assert!(count.get() == 1, "a round older than max-round-duration is published at the next iteration");
+            // so the round was open at most max + one read timeout: at t1 it was not yet over max
+            assert!(!gt(dur_since(t1, (start_s, start_n)).unwrap(), dmax));
+        } else {
+            assert!(count.get() == 0, "not published before its time (no target found)");
+        }
+    } else {
+        assert!(first == 1 && st.round.0 == round0.0 + 1);
+    }
+    kani::cover!(first == 0 && count.get() == 1, "published at the second iteration");
+    kani::cover!(first == 0 && count.get() == 0, "still open");
+    kani::cover!(dmax == (0, 0) && first == 1, "zero max duration");
+    std::mem::forget(st);
+}
+
 // =========================================================================== C09: termination
 
 /// `finished(n)` <=> round >= n for every n >= 1 and every round counter.
@@ -760,31 +830,40 @@ fn c09_finished_iff_round_limit() {
 }
 
 /// A receive error is returned unchanged and leaves the state untouched; a timeout changes nothing.
-#[kani::proof]
-#[kani::unwind(3)]
-fn c09_recv_error_and_timeout() {
+fn recv_no_response(fatal: bool) {
     let cfg = any_strategy_config(kani::any());
     kani::assume(accepted(&cfg));
     let mut st = any_state(cfg);
     kani::assume(inv_scalar(&st));
     let mut net = SymNet::new([SendOutcome::Ok, SendOutcome::Ok, SendOutcome::Ok]);
-    let fatal: bool = kani::any();
-    net.recv = Some(if fatal { Err(()) } else { Ok(None) });
+    net.recv = if fatal { Some(Err(())) } else { None };
     let strategy = Strategy::new(&cfg, noop_publish);
     let (seq0, rs0, ttl0, round0, tf0, mr0, tt0) =
         (st.sequence, st.round_sequence, st.ttl, st.round, st.target_found, st.max_received_ttl, st.target_ttl);
     let res = strategy.recv_response(&mut net, &mut st);
     assert!(net.recv_calls == 1);
-    assert!(res.is_err() == fatal);
     if fatal {
-        assert!(matches!(res, Err(Error::IoError(_))));
+        assert!(matches!(res, Err(Error::IoError(_))), "a fatal receive error is returned");
+    } else {
+        assert!(res.is_ok());
     }
     assert!(st.sequence == seq0 && st.round_sequence == rs0 && st.ttl == ttl0 && st.round == round0);
     assert!(st.target_found == tf0 && st.max_received_ttl == mr0 && st.target_ttl == tt0 && st.received_time.is_none());
-    kani::cover!(fatal, "fatal receive error");
+    kani::cover!(true, "reachable");
     std::mem::forget(st);
     std::mem::forget(net);
     std::mem::forget(res);
+}
+
+#[kani::proof]
+#[kani::unwind(2)]
+fn c09_recv_fatal_error() {
+    recv_no_response(true);
+}
+#[kani::proof]
+#[kani::unwind(2)]
+fn c09_recv_timeout() {
+    recv_no_response(false);
 }
 
 // =========================================================================== C10: publish_trace
@@ -833,6 +912,15 @@ fn c10_publish_trace() {
 }
 
 // =========================================================================== C01 / C03: the receive step
+
+/// IpAddr equality without memcmp (keeps unwind(2) harnesses free of byte-compare loops).
+fn ip_eq(a: IpAddr, b: IpAddr) -> bool {
+    match (a, b) {
+        (IpAddr::V4(x), IpAddr::V4(y)) => u32::from(x) == u32::from(y),
+        (IpAddr::V6(x), IpAddr::V6(y)) => u128::from(x) == u128::from(y),
+        _ => false,
+    }
+}
 
 fn any_icmp_packet_type() -> IcmpPacketType {
     match kani::any::<u8>() % 4 {
@@ -893,7 +981,7 @@ fn complete_probe_awaited(rs: u16, size: u16, j: u16, v6: bool) {
             assert!(c.sequence == awaited.sequence && c.identifier == awaited.identifier);
             assert!(c.src_port == awaited.src_port && c.dest_port == awaited.dest_port);
             assert!(c.ttl == awaited.ttl && c.round == awaited.round && c.sent == awaited.sent, "ttl / round / send time of the probe");
-            assert!(c.host == r_addr, "responder address");
+            assert!(ip_eq(c.host, r_addr), "responder address");
             assert!(c.received == received, "receive time (round-trip time = received - sent)");
             assert!(c.icmp_packet_type == r_kind, "response kind and code");
             assert!(c.tos == r_tos && c.expected_udp_checksum == r_exp && c.actual_udp_checksum == r_act);
@@ -973,7 +1061,7 @@ fn complete_probe_ignored(rs: u16, size: u16, j: u16, kind: u8, v6: bool) {
     st.complete_probe(resp);
     match (&st.buffer[usize::from(j)], kind) {
         (ProbeStatus::Complete(c), 0) => {
-            assert!(c.host == first_host && c.received == first_recv && c.icmp_packet_type == first_kind, "first response wins");
+            assert!(ip_eq(c.host, first_host) && c.received == first_recv && c.icmp_packet_type == first_kind, "first response wins");
             assert!(c.sequence == p.sequence && c.ttl == p.ttl && c.round == p.round);
         }
         (ProbeStatus::NotSent, 1) | (ProbeStatus::Skipped, 2) => {}
@@ -1050,11 +1138,6 @@ fn recv_decision(kind: u8, which: u8, v6: bool) {
     let st = any_state(cfg);
     kani::assume(inv_scalar(&st));
     let proto_resp = any_proto_resp(which, v6);
-    if let (ProtocolResponse::Udp(u), MultipathStrategy::Dublin, true) = (&proto_resp, cfg.multipath_strategy, v6) {
-        // the wire layer only ever reports payload lengths that keep initial + len inside u16 once the
-        // quoted length field is sane; arbitrary values are the subject of c04_strategy_resp_no_panic
-        kani::assume(u32::from(cfg.initial_sequence.0) + u32::from(u.payload_len) <= 65535);
-    }
     let (recv, _, _) = any_time();
     let addr = any_ip(v6);
     let data = ResponseData::new(recv, addr, proto_resp.clone());
@@ -1081,7 +1164,7 @@ fn recv_decision(kind: u8, which: u8, v6: bool) {
                 (MultipathStrategy::Classic, _) => u.dest_port,
                 (MultipathStrategy::Paris, _) => u.actual_udp_checksum,
                 (MultipathStrategy::Dublin, _) => {
-                    if v6 { cfg.initial_sequence.0 + u.payload_len } else { u.identifier }
+                    if v6 { cfg.initial_sequence.0.wrapping_add(u.payload_len) } else { u.identifier }
                 }
             };
             (
@@ -1128,7 +1211,7 @@ fn recv_decision(kind: u8, which: u8, v6: bool) {
 macro_rules! recv_decision_harness {
     ($name:ident, $kind:expr, $which:expr, $v6:expr) => {
         #[kani::proof]
-        #[kani::unwind(3)]
+        #[kani::unwind(18)]
         fn $name() {
             recv_decision($kind, $which, $v6);
         }
@@ -1235,16 +1318,16 @@ fn identity_roundtrip(which: u8, v6: bool) {
         assert!(!strategy.check_trace_id(TraceId(foreign)), "another tracer's non-zero identifier is rejected");
         assert!(id == cfg.trace_identifier);
     }
-    kani::cover!(paris, "paris");
-    kani::cover!(dublin, "dublin");
-    kani::cover!(seq.0 == 65533, "largest sequence");
+    kani::cover!(which != 1 || paris, "paris");
+    kani::cover!(which != 1 || dublin, "dublin");
+    kani::cover!(seq.0 == 65533 || (dublin && v6 && which == 1), "largest sequence");
     std::mem::forget(st);
 }
 
 macro_rules! identity_roundtrip_harness {
     ($name:ident, $which:expr, $v6:expr) => {
         #[kani::proof]
-        #[kani::unwind(3)]
+        #[kani::unwind(18)]
         fn $name() {
             identity_roundtrip($which, $v6);
         }
@@ -1256,3 +1339,87 @@ identity_roundtrip_harness!(c02_identity_udp_v4, 1, false);
 identity_roundtrip_harness!(c02_identity_udp_v6, 1, true);
 identity_roundtrip_harness!(c02_identity_tcp_v4, 2, false);
 identity_roundtrip_harness!(c02_identity_tcp_v6, 2, true);
+
+// =========================================================================== C16: accepted configurations can run
+
+/// For EVERY configuration the builder accepts (library users: builder validation only — including
+/// first_ttl > max_ttl and max_inflight = 0, which the CLI layer rejects) and every sequence / round:
+/// computing a probe's identity never reaches an `unimplemented!()` arm and never overflows.
+#[kani::proof]
+#[kani::unwind(3)]
+fn c16_probe_data_total_on_accepted_configs() {
+    let cfg = any_strategy_config(kani::any());
+    kani::assume(builder_accepts(&cfg));
+    let st = any_state(cfg);
+    let (src, dest, id, flags) = st.probe_data();
+    if matches!(cfg.protocol, Protocol::Icmp) {
+        assert!(id == cfg.trace_identifier && src.0 == 0 && dest.0 == 0 && flags.is_empty());
+    }
+    kani::cover!(matches!(cfg.port_direction, PortDirection::FixedBoth(_, _)), "fixed both (paris / dublin)");
+    std::mem::forget(st);
+}
+
+/// The first steps of a run for every builder-accepted configuration, from the initial state
+/// (`TracerState::new`'s field values, initial sequence at a representative): a send step, a
+/// publish and the advance to the next round complete without panic, and every ttl handed to the
+/// network satisfies the aggregator's indexing contract 1 <= ttl <= 254
+/// (`hops[usize::from(ttl) - 1]` over a 254-entry table).
+fn accepted_config_first_round(initial: u16, proto: u8, v6: bool) {
+    let mut cfg = any_strategy_config(v6);
+    cfg.initial_sequence = Sequence(initial);
+    cfg.protocol = match proto {
+        0 => Protocol::Icmp,
+        1 => Protocol::Udp,
+        _ => Protocol::Tcp,
+    };
+    kani::assume(builder_accepts(&cfg));
+    let mut st = TracerState {
+        config: cfg,
+        buffer: [NOTSENT; 512],
+        sequence: cfg.initial_sequence,
+        round_sequence: cfg.initial_sequence,
+        ttl: cfg.first_ttl,
+        round: RoundId(0),
+        round_start: UNIX_EPOCH,
+        target_found: false,
+        max_received_ttl: None,
+        target_ttl: None,
+        received_time: None,
+    };
+    let o0 = if kani::any() { SendOutcome::Ok } else { SendOutcome::Fatal };
+    let mut net = SymNet::new([o0, SendOutcome::Fatal, SendOutcome::Fatal]);
+    let seen = std::cell::Cell::new(None::<Published>);
+    let strategy = Strategy::new(&cfg, |r: &Round<'_>| {
+        seen.set(Some(Published { n: r.probes.len(), ptr: 0, largest_ttl: r.largest_ttl.0, target_found_reason: false }));
+    });
+    let res = strategy.send_request(&mut net, &mut st);
+    if net.calls > 0 {
+        let p = net.probes[0].clone().unwrap();
+        assert!(p.ttl.0 >= 1 && p.ttl.0 <= MAX_TTL, "ttl within the aggregator's table");
+        assert!(p.ttl == cfg.first_ttl && p.sequence == cfg.initial_sequence);
+    }
+    strategy.publish_trace(&st);
+    let p = seen.get().unwrap();
+    assert!(p.n == net.calls && p.largest_ttl == 0);
+    st.advance_round(cfg.first_ttl);
+    kani::cover!(net.calls == 1, "first probe sent");
+    kani::cover!(net.calls == 0, "nothing to send (first_ttl > max_ttl or max_inflight = 0)");
+    std::mem::forget(st);
+    std::mem::forget(net);
+    std::mem::forget(res);
+}
+
+macro_rules! accepted_config_harness {
+    ($name:ident, $initial:expr, $proto:expr, $v6:expr) => {
+        #[kani::proof]
+        #[kani::unwind(2)]
+        #[kani::stub(std::time::SystemTime::now, clock::now_stub)]
+        fn $name() {
+            accepted_config_first_round($initial, $proto, $v6);
+        }
+    };
+}
+accepted_config_harness!(c16_accepted_config_icmp_v4, 33434, 0, false);
+accepted_config_harness!(c16_accepted_config_udp_v6, 64511, 1, true);
+accepted_config_harness!(c16_accepted_config_udp_v4, 0, 1, false);
+accepted_config_harness!(c16_accepted_config_tcp_v4, 33434, 2, false);
